@@ -34,7 +34,7 @@ def ownsNG (base : Option Nat) : NG → Option Nat
   | .done n => some n
   | _ => base
 
-theorem stepNG_own (s : Shared) (b : Bool) (ng : NG) (hnd : ∀ n, ng ≠ .done n) :
+theorem stepNG_own (s : Shared) (b : Bool) (ng : NG) :
     OwnStep s (ownsNG none ng) (stepNG s b ng).1 (ownsNG none (stepNG s b ng).2.1) := by
   cases ng with
   | trav =>
@@ -90,6 +90,734 @@ theorem stepNG_own (s : Shared) (b : Bool) (ng : NG) (hnd : ∀ n, ng ≠ .done 
         by_cases hm : m = s.nNodes
         · subst hm; simp [Shared.setNode, upd]
         · simp [Shared.setNode, upd, hm]
-  | done n => exact absurd rfl (hnd n)
+  | done n => exact .same (fun _ => rfl) rfl rfl
+
+
+/-! ## frame facts for `in_use` -/
+
+theorem setNode_inUse (s : Shared) (n m : Nat) (f : Node → Node) (hf : ∀ nd, (f nd).inUse = nd.inUse) :
+    ((s.setNode n f).nodes m).inUse = (s.nodes m).inUse := by
+  by_cases hm : m = n
+  · subst hm; simp [hf]
+  · simp [hm]
+
+theorem dbgInUse_nodes (s : Shared) (n : Nat) (site : String) : (dbgInUse s n site).nodes = s.nodes := by
+  unfold dbgInUse; split <;> simp
+theorem dbgInUse_nNodes (s : Shared) (n : Nat) (site : String) : (dbgInUse s n site).nNodes = s.nNodes := by
+  unfold dbgInUse; split <;> simp
+
+theorem ite_setFault_nodes (x : Shared) (c : Prop) [Decidable c] (f : Fault) :
+    (if c then x else x.setFault f).nodes = x.nodes := by split <;> simp
+theorem ite_setFault_nNodes (x : Shared) (c : Prop) [Decidable c] (f : Fault) :
+    (if c then x else x.setFault f).nNodes = x.nNodes := by split <;> simp
+
+/-- a step that touches no `in_use` word, allocates no node and leaves the ownership view alone -/
+macro "own_same" : tactic =>
+  `(tactic| (refine OwnStep.same (fun m => ?_) ?_ ?_ <;>
+      first
+        | rfl
+        | (simp only [setFault_nodes, setFault_nNodes, incObj_nodes, incObj_nNodes, decObj_nodes, decObj_nNodes,
+                      dbgInUse_nodes, dbgInUse_nNodes, setNode_nNodes]; done)
+        | (simp only [setFault_nodes, incObj_nodes, decObj_nodes, dbgInUse_nodes]
+           first | rfl | exact setNode_inUse _ _ _ _ (fun _ => rfl))
+        | exact setNode_inUse _ _ _ _ (fun _ => rfl)))
+
+/-! ## `start_cooldown` -/
+
+def ownsCD : CD → Option Nat
+  | .res n => some n
+  | .swap n => some n
+  | _ => none
+
+theorem stepCD_own (s : Shared) (cd : CD) : OwnStep s (ownsCD cd) (stepCD s cd).1 (ownsCD (stepCD s cd).2.1) := by
+  cases cd with
+  | res n => simp only [stepCD]; own_same
+  | swap n =>
+    simp only [stepCD]
+    refine .cool n rfl (fun m => ?_) ?_ rfl
+    · rw [ite_setFault_nodes]; by_cases hm : m = n <;> simp [hm]
+    · rw [ite_setFault_nNodes]; rfl
+  | rel n => simp only [stepCD]; own_same
+  | done => exact .same (fun _ => rfl) rfl rfl
+
+/-! ## load -/
+
+def ownsLP (l : Locals) : LP → Option Nat
+  | .get ng => ownsNG none ng
+  | .reget ng => ownsNG none ng
+  | .cool cd => ownsCD cd
+  | _ => l.node
+
+
+theorem stepLP_own (cfg : Cfg) (c : Nat) (s : Shared) (l : Locals) (b : Bool) (lp : LP) :
+    OwnStep s (ownsLP l lp) (stepLP cfg c s l b lp).1
+      (ownsLP (stepLP cfg c s l b lp).2.1 (stepLP cfg c s l b lp).2.2.1) := by
+  cases lp with
+  | start =>
+    simp only [stepLP]
+    cases hl : l.node with
+    | none => simp only [ownsLP, ownsNG, hl]; exact .same (fun _ => rfl) rfl rfl
+    | some n => simp only; split <;> (simp only [ownsLP, hl]; exact .same (fun _ => rfl) rfl rfl)
+  | get ng =>
+    have h := stepNG_own s b ng
+    simp only [stepLP]
+    generalize stepNG s b ng = x at *
+    obtain ⟨s', ng', evs⟩ := x
+    cases ng' with
+    | done n => simp only; split <;> simpa [ownsLP, ownsNG] using h
+    | _ => simpa [ownsLP] using h
+  | reget ng =>
+    have h := stepNG_own s b ng
+    simp only [stepLP]
+    generalize stepNG s b ng = x at *
+    obtain ⟨s', ng', evs⟩ := x
+    cases ng' with
+    | done n => simpa [ownsLP, ownsNG] using h
+    | _ => simpa [ownsLP] using h
+  | cool cd =>
+    have h := stepCD_own s cd
+    simp only [stepLP]
+    generalize stepCD s cd = x at *
+    obtain ⟨s', cd', evs⟩ := x
+    cases cd' with
+    | done => simpa [ownsLP, ownsNG, ownsCD] using h
+    | _ => simpa [ownsLP] using h
+  | a1 => simp only [stepLP]; split <;> (simp only [ownsLP]; own_same)
+  | nfDbg p => simp only [stepLP]; split <;> (simp only [ownsLP]; own_same)
+  | probe p i => simp only [stepLP]; (repeat' split) <;> (simp only [ownsLP]; own_same)
+  | pswap p idx => simp only [stepLP]; (repeat' split) <;> (simp only [ownsLP]; own_same)
+  | a3 p idx => simp only [stepLP]; (repeat' split) <;> (simp only [ownsLP]; own_same)
+  | a4 p idx => simp only [stepLP]; (repeat' split) <;> (simp only [ownsLP]; own_same)
+  | a4dec p => simp only [stepLP]; (simp only [ownsLP]; own_same)
+  | nhDbg =>
+    simp only [stepLP]
+    cases hl : l.node with
+    | none => simp only [ownsLP, hl]; own_same
+    | some n => simp only; split <;> (simp only [ownsLP, ownsCD, hl]; own_same)
+  | f1 => simp only [stepLP, ownsLP]; own_same
+  | f2 g => simp only [stepLP]; (repeat' split) <;> (simp only [ownsLP]; own_same)
+  | f3 g => simp only [stepLP]; split <;> (simp only [ownsLP]; own_same)
+  | chDbg g cand => simp only [stepLP]; split <;> (simp only [ownsLP]; own_same)
+  | f4 g cand => simp only [stepLP]; (repeat' split) <;> (simp only [ownsLP]; own_same)
+  | f5 g cand => simp only [stepLP]; (repeat' split) <;> (simp only [ownsLP]; own_same)
+  | fokInc cand => simp only [stepLP, ownsLP]; own_same
+  | fokPay cand => simp only [stepLP]; (repeat' split) <;> (simp only [ownsLP]; own_same)
+  | fokDec cand => simp only [stepLP, ownsLP]; own_same
+  | fr1 cand j => simp only [stepLP]; split <;> (simp only [ownsLP]; own_same)
+  | fr2 cand j r => simp only [stepLP, ownsLP]; own_same
+  | frPay cand r => simp only [stepLP]; (repeat' split) <;> (simp only [ownsLP]; own_same)
+  | frDec cand r => simp only [stepLP, ownsLP]; own_same
+  | done p d => exact .same (fun _ => rfl) rfl rfl
+
+
+theorem stepGD_own (s : Shared) (gd : GD) (o : Option Nat) : OwnStep s o (stepGD s gd).1 o := by
+  cases gd with
+  | pay p n idx => simp only [stepGD]; (repeat' split) <;> own_same
+  | dec p => simp only [stepGD]; own_same
+  | done => exact .same (fun _ => rfl) rfl rfl
+
+theorem stepGI_own (s : Shared) (gi : GI) (o : Option Nat) : OwnStep s o (stepGI s gi).1 o := by
+  cases gi with
+  | inc p n idx => simp only [stepGI]; own_same
+  | pay p n idx => simp only [stepGI]; (repeat' split) <;> own_same
+  | dec p => simp only [stepGI]; own_same
+  | done => exact .same (fun _ => rfl) rfl rfl
+
+/-! ## the debt walk -/
+
+def ownsPP (l : Locals) : PP → Option Nat
+  | .get ng => ownsNG none ng
+  | .hload _ ld => ownsLP l ld
+  | _ => l.node
+
+theorem stepPP_own (cfg : Cfg) (p c : Nat) (s : Shared) (l : Locals) (b : Bool) (pp : PP) :
+    OwnStep s (ownsPP l pp) (stepPP cfg p c s l b pp).1
+      (ownsPP (stepPP cfg p c s l b pp).2.1 (stepPP cfg p c s l b pp).2.2.1) := by
+  cases pp with
+  | start =>
+    simp only [stepPP]
+    cases hl : l.node with
+    | none => simp only [ownsPP, ownsNG, hl]; exact .same (fun _ => rfl) rfl rfl
+    | some n => simp only; split <;> (simp only [ownsPP, hl]; exact .same (fun _ => rfl) rfl rfl)
+  | get ng =>
+    have h := stepNG_own s b ng
+    simp only [stepPP]
+    generalize stepNG s b ng = x at *
+    obtain ⟨s', ng', evs⟩ := x
+    cases ng' with
+    | done n => simp only; split <;> simpa [ownsPP, ownsNG] using h
+    | _ => simpa [ownsPP] using h
+  | hload h ld =>
+    have hh := stepLP_own cfg c s l b ld
+    simp only [stepPP]
+    generalize stepLP cfg c s l b ld = x at *
+    obtain ⟨s', l', ld', evs⟩ := x
+    cases ld' with
+    | done r d => simp only; split <;> simpa [ownsPP, ownsLP] using hh
+    | _ => simpa [ownsPP] using hh
+  | hinto h r gi =>
+    have hh := stepGI_own s gi l.node
+    simp only [stepPP]
+    generalize stepGI s gi = x at *
+    obtain ⟨s', gi', evs⟩ := x
+    cases gi' <;> simpa [ownsPP] using hh
+  | inc => simp only [stepPP, ownsPP]; own_same
+  | trav => simp only [stepPP]; split <;> (simp only [ownsPP]; own_same)
+  | res n => simp only [stepPP]; split <;> (simp only [ownsPP]; own_same)
+  | hDbg0 h => simp only [stepPP, ownsPP]; own_same
+  | hDbg1 h => simp only [stepPP]; (repeat' split) <;> (simp only [ownsPP]; own_same)
+  | h1 h => simp only [stepPP, PP.dispatch]; (repeat' split) <;> (simp only [ownsPP]; own_same)
+  | h2 h => simp only [stepPP]; (repeat' split) <;> (simp only [ownsPP, ownsLP]; own_same)
+  | h3 h => simp only [stepPP, PP.dispatch]; (repeat' split) <;> (simp only [ownsPP]; own_same)
+  | hres h => simp only [stepPP, ownsPP, ownsLP]; own_same
+  | h4 h r => simp only [stepPP, ownsPP]; own_same
+  | h5 h r t => simp only [stepPP, ownsPP]; own_same
+  | h6 h r t m => simp only [stepPP, ownsPP]; own_same
+  | h7 h r t m => simp only [stepPP, PP.dispatch]; (repeat' split) <;> (simp only [ownsPP]; own_same)
+  | h8 h t => simp only [stepPP, ownsPP]; own_same
+  | hdrop h r => simp only [stepPP, PP.dispatch]; (repeat' split) <;> (simp only [ownsPP]; own_same)
+  | hend h => simp only [stepPP]; split <;> (simp only [ownsPP]; own_same)
+  | hrel h => simp only [stepPP, ownsPP]; own_same
+  | slot n j => simp only [stepPP, PP.nextSlot]; (repeat' split) <;> (simp only [ownsPP]; own_same)
+  | slotInc n j => simp only [stepPP, PP.nextSlot]; (repeat' split) <;> (simp only [ownsPP]; own_same)
+  | rel n => simp only [stepPP]; (repeat' split) <;> (simp only [ownsPP]; own_same)
+  | fin => simp only [stepPP]; split <;> (simp only [ownsPP]; own_same)
+  | dec => simp only [stepPP, ownsPP]; own_same
+  | done => exact .same (fun _ => rfl) rfl rfl
+
+
+@[simp] theorem writeCell_nodes (s : Shared) (c p : Nat) : (s.writeCell c p).nodes = s.nodes := rfl
+@[simp] theorem writeCell_nNodes (s : Shared) (c p : Nat) : (s.writeCell c p).nNodes = s.nNodes := rfl
+
+/-! ## compare_and_swap, rcu -/
+
+def ownsCP (l : Locals) : CP → Option Nat
+  | .load ld => ownsLP l ld
+  | .pay _ pp => ownsPP l pp
+  | _ => l.node
+
+theorem stepCP_own (cfg : Cfg) (c cur new : Nat) (s : Shared) (l : Locals) (b : Bool) (cp : CP) :
+    OwnStep s (ownsCP l cp) (stepCP cfg c cur new s l b cp).1
+      (ownsCP (stepCP cfg c cur new s l b cp).2.1 (stepCP cfg c cur new s l b cp).2.2.1) := by
+  cases cp with
+  | load ld =>
+    have hh := stepLP_own cfg c s l b ld
+    simp only [stepCP]
+    generalize stepLP cfg c s l b ld = x at *
+    obtain ⟨s', l', ld', evs⟩ := x
+    cases ld' with
+    | done r d => simp only; (repeat' split) <;> simpa [ownsCP, ownsLP, ownsPP] using hh
+    | _ => simpa [ownsCP] using hh
+  | dropNew old => simp only [stepCP, ownsCP]; own_same
+  | cx old =>
+    simp only [stepCP]
+    (repeat' split) <;> (simp only [ownsCP, ownsPP, ownsLP]; first | own_same | exact .same (fun _ => rfl) rfl rfl)
+  | pay old pp =>
+    have hh := stepPP_own cfg old.ptr c s l b pp
+    simp only [stepCP]
+    generalize stepPP cfg old.ptr c s l b pp = x at *
+    obtain ⟨s', l', pp', evs⟩ := x
+    cases pp' with
+    | done => simp only; split <;> simpa [ownsCP, ownsPP] using hh
+    | _ => simpa [ownsCP] using hh
+  | decOld old => simp only [stepCP, ownsCP]; own_same
+  | dropOld gd =>
+    have hh := stepGD_own s gd l.node
+    simp only [stepCP]
+    generalize stepGD s gd = x at *
+    obtain ⟨s', gd', evs⟩ := x
+    cases gd' <;> simpa [ownsCP, ownsLP] using hh
+  | done old => exact .same (fun _ => rfl) rfl rfl
+
+def ownsRP (l : Locals) : RP → Option Nat
+  | .load ld => ownsLP l ld
+  | .cas _ _ cp => ownsCP l cp
+  | _ => l.node
+
+theorem alloc_nodes (s : Shared) (v : Nat) : (alloc s v).1.nodes = s.nodes ∧ (alloc s v).1.nNodes = s.nNodes := by
+  simp [alloc]
+
+theorem stepRP_own (cfg : Cfg) (c : Nat) (s : Shared) (l : Locals) (b : Bool) (tries : Nat) (rp : RP) :
+    OwnStep s (ownsRP l rp) (stepRP cfg c s l b tries rp).1
+      (ownsRP (stepRP cfg c s l b tries rp).2.1 (stepRP cfg c s l b tries rp).2.2.1) := by
+  cases rp with
+  | load ld =>
+    have hh := stepLP_own cfg c s l b ld
+    simp only [stepRP]
+    generalize stepLP cfg c s l b ld = x at *
+    obtain ⟨s', l', ld', evs⟩ := x
+    cases ld' with
+    | done r d => simpa [ownsRP, ownsLP] using hh
+    | _ => simpa [ownsRP] using hh
+  | attempt cur =>
+    simp only [stepRP, ownsRP, ownsCP, ownsLP]
+    refine .same (fun m => ?_) ?_ rfl
+    · rw [(alloc_nodes _ _).1]; split <;> simp
+    · rw [(alloc_nodes _ _).2]; split <;> simp
+  | cas cur a cp =>
+    have hh := stepCP_own cfg c cur.ptr a s l b cp
+    simp only [stepRP]
+    generalize stepCP cfg c cur.ptr a s l b cp = x at *
+    obtain ⟨s', l', cp', evs⟩ := x
+    cases cp' with
+    | done prev => simp only; (repeat' split) <;> simpa [ownsRP, ownsCP] using hh
+    | _ => simpa [ownsRP] using hh
+  | intoPrev cur prev gi =>
+    have hh := stepGI_own s gi l.node
+    simp only [stepRP]
+    generalize stepGI s gi = x at *
+    obtain ⟨s', gi', evs⟩ := x
+    cases gi' with
+    | done => simp only; split <;> simpa [ownsRP] using hh
+    | _ => simpa [ownsRP] using hh
+  | dropCur res gd =>
+    have hh := stepGD_own s gd l.node
+    simp only [stepRP]
+    generalize stepGD s gd = x at *
+    obtain ⟨s', gd', evs⟩ := x
+    cases gd' <;> simpa [ownsRP] using hh
+  | dropCurLoop prev gd =>
+    have hh := stepGD_own s gd l.node
+    simp only [stepRP]
+    generalize stepGD s gd = x at *
+    obtain ⟨s', gd', evs⟩ := x
+    cases gd' <;> simpa [ownsRP] using hh
+  | done r => exact .same (fun _ => rfl) rfl rfl
+
+
+/-! ## threads -/
+
+def ownsT (th : Thread) : Option Nat :=
+  match th.op with
+  | .load _ _ ld => ownsLP th.loc ld
+  | .loadFull _ _ ld => ownsLP th.loc ld
+  | .swapPay _ _ _ _ pp => ownsPP th.loc pp
+  | .cinto _ _ _ pp => ownsPP th.loc pp
+  | .dropc _ _ pp => ownsPP th.loc pp
+  | .cas _ _ _ _ _ _ cp => ownsCP th.loc cp
+  | .rcu _ _ _ rp => ownsRP th.loc rp
+  | .exitCool cd => ownsCD cd
+  | _ => th.loc.node
+
+/-- starting an operation touches no node and leaves the thread's node alone -/
+theorem beginOp_own (st : State) (t : Nat) (o : Op) :
+    (∀ m, ((beginOp st t o).1.sh.nodes m).inUse = (st.sh.nodes m).inUse) ∧
+    (beginOp st t o).1.sh.nNodes = st.sh.nNodes ∧
+    ownsT ((beginOp st t o).1.th t) = (st.th t).loc.node ∧
+    (∀ t', t' ≠ t → (beginOp st t o).1.th t' = st.th t') := by
+  cases o <;> simp only [beginOp] <;> (repeat' split) <;>
+    simp [ownsT, ownsLP, ownsPP, ownsCP, ownsRP, upd, alloc, Shared.setFault] <;>
+    (try (intro t' ht'; simp [ht'])) <;> (try (split <;> simp)) <;>
+    (try (intro t' h1 h2; exact absurd h2 h1))
+
+
+theorem OwnStep.transfer {s : Shared} {o : Option Nat} {s1 s2 : Shared} {o' o'' : Option Nat}
+    (h : OwnStep s o s1 o') (hn : s2.nodes = s1.nodes) (hk : s2.nNodes = s1.nNodes) (ho : o'' = o') :
+    OwnStep s o s2 o'' := by
+  subst ho
+  cases h with
+  | same hiu hn' ho => exact .same (fun m => by rw [hn]; exact hiu m) (by rw [hk]; exact hn') ho
+  | release n h hiu hn' ho => exact .release n h (fun m => by rw [hn]; exact hiu m) (by rw [hk]; exact hn') ho
+  | claim n h hlt hiu hn' hob ho => exact .claim n h hlt (fun m => by rw [hn]; exact hiu m) (by rw [hk]; exact hn') hob ho
+  | fresh hiu hn' hob ho => exact .fresh (fun m => by rw [hn]; exact hiu m) (by rw [hk]; exact hn') hob ho
+  | cool n hob hiu hn' ho => exact .cool n hob (fun m => by rw [hn]; exact hiu m) (by rw [hk]; exact hn') ho
+
+/-- closes `OwnStep … ∧ (others unchanged)` from the sub-machine's lemma `hh`, after the result
+    state has been exposed -/
+macro "fin_own" hh:ident : tactic =>
+  `(tactic| (constructor
+             · exact OwnStep.transfer $hh (by simp) (by simp)
+                 (by simp [ownsT, ownsLP, ownsPP, ownsCP, ownsRP, ownsCD, ownsNG, upd])
+             · intro t' h; simp [upd, h]))
+
+/-- a step of thread `t`: how it changes the node states and `t`'s ownership; nobody else's thread
+    state changes -/
+theorem microStep_own (st : State) (t : Nat) (b : Bool) :
+    OwnStep st.sh (ownsT (st.th t)) (microStep st t b).1.sh (ownsT ((microStep st t b).1.th t)) ∧
+    (∀ t', t' ≠ t → (microStep st t b).1.th t' = st.th t') := by
+  cases hop : (st.th t).op with
+  | finished =>
+    simp only [microStep, hop]
+    exact ⟨.same (fun _ => rfl) rfl rfl, fun _ _ => trivial⟩
+  | idle =>
+    have ho : ownsT (st.th t) = (st.th t).loc.node := by simp [ownsT, hop]
+    rw [ho]
+    simp only [microStep, hop]
+    cases hp : (st.th t).prog with
+    | nil =>
+      simp only
+      refine ⟨.same (fun _ => rfl) rfl ?_, fun t' h => by simp [upd, h]⟩
+      simp only [upd_same, ownsT]
+      cases (st.th t).loc.node <;> simp [ownsCD]
+    | cons po rest =>
+      obtain ⟨txt, o⟩ := po
+      simp only
+      refine ⟨.same (beginOp_own _ t o).1 (beginOp_own _ t o).2.1 ?_, fun t' h => ?_⟩
+      · rw [(beginOp_own _ t o).2.2.1]; simp [upd]
+      · rw [(beginOp_own _ t o).2.2.2 t' h]; simp [upd, h]
+  | exitCool cd =>
+    have ho : ownsT (st.th t) = ownsCD cd := by simp [ownsT, hop]
+    rw [ho]
+    have hh := stepCD_own st.sh cd
+    simp only [microStep, hop]
+    generalize stepCD st.sh cd = x at *
+    obtain ⟨s', cd', evs⟩ := x
+    cases cd' <;> (simp only []; fin_own hh)
+  | load c g ld =>
+    have ho : ownsT (st.th t) = ownsLP (st.th t).loc ld := by simp [ownsT, hop]
+    rw [ho]
+    have hh := stepLP_own st.cfg c st.sh (st.th t).loc b ld
+    simp only [microStep, hop]
+    generalize stepLP st.cfg c st.sh (st.th t).loc b ld = x at *
+    obtain ⟨s', l', ld', evs⟩ := x
+    cases ld' <;> (simp only []; fin_own hh)
+  | loadFull c h ld =>
+    have ho : ownsT (st.th t) = ownsLP (st.th t).loc ld := by simp [ownsT, hop]
+    rw [ho]
+    have hh := stepLP_own st.cfg c st.sh (st.th t).loc b ld
+    simp only [microStep, hop]
+    generalize stepLP st.cfg c st.sh (st.th t).loc b ld = x at *
+    obtain ⟨s', l', ld', evs⟩ := x
+    cases ld' <;> (simp only []; (try split) <;> fin_own hh)
+  | loadFullInto c h p gi =>
+    have ho : ownsT (st.th t) = (st.th t).loc.node := by simp [ownsT, hop]
+    rw [ho]
+    have hh := stepGI_own st.sh gi (st.th t).loc.node
+    simp only [microStep, hop]
+    generalize stepGI st.sh gi = x at *
+    obtain ⟨s', gi', evs⟩ := x
+    cases gi' <;> (simp only []; fin_own hh)
+  | cloneh h h2 a =>
+    have ho : ownsT (st.th t) = (st.th t).loc.node := by simp [ownsT, hop]
+    rw [ho]
+    simp only [microStep, hop]
+    refine ⟨?_, fun t' h => by simp [upd, h]⟩
+    refine .same (fun m => ?_) ?_ (by simp [ownsT, upd]) <;> simp
+  | droph a =>
+    have ho : ownsT (st.th t) = (st.th t).loc.node := by simp [ownsT, hop]
+    rw [ho]
+    simp only [microStep, hop]
+    refine ⟨?_, fun t' h => by simp [upd, h]⟩
+    refine .same (fun m => ?_) ?_ (by simp [ownsT, upd]) <;> simp
+  | dropg gd =>
+    have ho : ownsT (st.th t) = (st.th t).loc.node := by simp [ownsT, hop]
+    rw [ho]
+    have hh := stepGD_own st.sh gd (st.th t).loc.node
+    simp only [microStep, hop]
+    generalize stepGD st.sh gd = x at *
+    obtain ⟨s', gd', evs⟩ := x
+    cases gd' <;> (simp only []; fin_own hh)
+  | ginto h p gi =>
+    have ho : ownsT (st.th t) = (st.th t).loc.node := by simp [ownsT, hop]
+    rw [ho]
+    have hh := stepGI_own st.sh gi (st.th t).loc.node
+    simp only [microStep, hop]
+    generalize stepGI st.sh gi = x at *
+    obtain ⟨s', gi', evs⟩ := x
+    cases gi' <;> (simp only []; fin_own hh)
+  | swapSw c a out isStore =>
+    have ho : ownsT (st.th t) = (st.th t).loc.node := by simp [ownsT, hop]
+    rw [ho]
+    simp only [microStep, hop]
+    split
+    · refine ⟨.same (fun m => rfl) rfl (by simp [ownsT, ownsPP, upd]), fun t' h => by simp [upd, h]⟩
+    · exact ⟨.same (fun _ => rfl) rfl (by simp [ownsT, hop]), fun _ _ => rfl⟩
+  | swapPay c out old isStore pp =>
+    have ho : ownsT (st.th t) = ownsPP (st.th t).loc pp := by simp [ownsT, hop]
+    rw [ho]
+    have hh := stepPP_own st.cfg old c st.sh (st.th t).loc b pp
+    simp only [microStep, hop]
+    generalize stepPP st.cfg old c st.sh (st.th t).loc b pp = x at *
+    obtain ⟨s', l', pp', evs⟩ := x
+    cases pp' <;> (simp only []; (repeat' split) <;> fin_own hh)
+  | swapDrop c old =>
+    have ho : ownsT (st.th t) = (st.th t).loc.node := by simp [ownsT, hop]
+    rw [ho]
+    simp only [microStep, hop]
+    refine ⟨?_, fun t' h => by simp [upd, h]⟩
+    refine .same (fun m => ?_) ?_ (by simp [ownsT, upd]) <;> simp
+  | cas c cur keep curPtr new g cp =>
+    have ho : ownsT (st.th t) = ownsCP (st.th t).loc cp := by simp [ownsT, hop]
+    rw [ho]
+    have hh := stepCP_own st.cfg c curPtr new st.sh (st.th t).loc b cp
+    simp only [microStep, hop]
+    generalize stepCP st.cfg c curPtr new st.sh (st.th t).loc b cp = x at *
+    obtain ⟨s', l', cp', evs⟩ := x
+    cases cp' <;> (simp only []; (try (cases cur <;> cases keep)) <;> fin_own hh)
+  | rcu c out tries rp =>
+    have ho : ownsT (st.th t) = ownsRP (st.th t).loc rp := by simp [ownsT, hop]
+    rw [ho]
+    have hh := stepRP_own st.cfg c st.sh (st.th t).loc b tries rp
+    simp only [microStep, hop]
+    generalize stepRP st.cfg c st.sh (st.th t).loc b tries rp = x at *
+    obtain ⟨s', l', rp', tr', evs⟩ := x
+    cases rp' <;> (simp only []; fin_own hh)
+  | cinto c h p pp =>
+    have ho : ownsT (st.th t) = ownsPP (st.th t).loc pp := by simp [ownsT, hop]
+    rw [ho]
+    have hh := stepPP_own st.cfg p c st.sh (st.th t).loc b pp
+    simp only [microStep, hop]
+    generalize stepPP st.cfg p c st.sh (st.th t).loc b pp = x at *
+    obtain ⟨s', l', pp', evs⟩ := x
+    cases pp' <;> (simp only []; fin_own hh)
+  | dropc c p pp =>
+    have ho : ownsT (st.th t) = ownsPP (st.th t).loc pp := by simp [ownsT, hop]
+    rw [ho]
+    have hh := stepPP_own st.cfg p c st.sh (st.th t).loc b pp
+    simp only [microStep, hop]
+    generalize stepPP st.cfg p c st.sh (st.th t).loc b pp = x at *
+    obtain ⟨s', l', pp', evs⟩ := x
+    cases pp' <;> (simp only []; (try split) <;> fin_own hh)
+  | dropcDec c p =>
+    have ho : ownsT (st.th t) = (st.th t).loc.node := by simp [ownsT, hop]
+    rw [ho]
+    simp only [microStep, hop]
+    refine ⟨?_, fun t' h => by simp [upd, h]⟩
+    refine .same (fun m => ?_) ?_ (by simp [ownsT, upd]) <;> simp
+
+end M
+
+namespace M
+open Consts
+
+/-! ## The invariant -/
+
+structure OwnInv (st : State) : Prop where
+  /-- an owned node exists -/
+  lt : ∀ t n, ownsT (st.th t) = some n → n < st.sh.nNodes
+  /-- … and is marked in use -/
+  used : ∀ t n, ownsT (st.th t) = some n → (st.sh.nodes n).inUse = nodeUsed
+  /-- … by nobody else -/
+  excl : ∀ t t' n, t ≠ t' → ownsT (st.th t) = some n → ownsT (st.th t') ≠ some n
+  /-- nodes that do not exist yet look `USED` (so they can be neither claimed nor released) -/
+  beyond : ∀ n, st.sh.nNodes ≤ n → (st.sh.nodes n).inUse = nodeUsed
+
+theorem OwnInv.step {st : State} (h : OwnInv st) (t : Nat) (b : Bool) : OwnInv (microStep st t b).1 := by
+  obtain ⟨hs, hoth⟩ := microStep_own st t b
+  have hd := Consts.node_states_distinct
+  generalize (microStep st t b).1 = st' at *
+  -- ownership of the other threads is what it was
+  have oth : ∀ t', t' ≠ t → ownsT (st'.th t') = ownsT (st.th t') := fun t' ht' => by rw [hoth t' ht']
+  cases hs with
+  | same hiu hn ho =>
+    have all : ∀ t', ownsT (st'.th t') = ownsT (st.th t') := fun t' => by
+      by_cases ht : t' = t
+      · subst ht; exact ho
+      · exact oth t' ht
+    refine ⟨fun t' n hh => ?_, fun t' n hh => ?_, fun t1 t2 n hne h1 => ?_, fun n hn' => ?_⟩
+    · rw [hn]; exact h.lt t' n (all t' ▸ hh)
+    · rw [hiu]; exact h.used t' n (all t' ▸ hh)
+    · rw [all t2]; exact h.excl t1 t2 n hne (all t1 ▸ h1)
+    · rw [hiu]; exact h.beyond n (hn ▸ hn')
+  | release n hc hiu hn ho =>
+    have all : ∀ t', ownsT (st'.th t') = ownsT (st.th t') := fun t' => by
+      by_cases ht : t' = t
+      · subst ht; exact ho
+      · exact oth t' ht
+    have nobody : ∀ t', ownsT (st.th t') ≠ some n := fun t' hh => by
+      have := h.used t' n hh; rw [hc] at this; exact hd.2.1 this.symm
+    have hlt : n < st.sh.nNodes := by
+      by_cases hl : n < st.sh.nNodes
+      · exact hl
+      · have := h.beyond n (by omega); rw [hc] at this; exact absurd this.symm hd.2.1
+    refine ⟨fun t' m hh => ?_, fun t' m hh => ?_, fun t1 t2 m hne h1 => ?_, fun m hm => ?_⟩
+    · rw [hn]; exact h.lt t' m (all t' ▸ hh)
+    · rw [hiu]
+      have hm : m ≠ n := fun e => nobody t' (e ▸ (all t' ▸ hh))
+      simp only [hm, ↓reduceIte]; exact h.used t' m (all t' ▸ hh)
+    · rw [all t2]; exact h.excl t1 t2 m hne (all t1 ▸ h1)
+    · rw [hiu]
+      have hm' : m ≠ n := by rw [hn] at hm; omega
+      simp only [hm', ↓reduceIte]; exact h.beyond m (hn ▸ hm)
+  | claim n hc _ hiu hn hob ho =>
+    have nobody : ∀ t', ownsT (st.th t') ≠ some n := fun t' hh => by
+      have := h.used t' n hh; rw [hc] at this; exact hd.1 this
+    have hlt : n < st.sh.nNodes := by
+      by_cases hl : n < st.sh.nNodes
+      · exact hl
+      · have := h.beyond n (by omega); rw [hc] at this; exact absurd this hd.1
+    refine ⟨fun t' m hh => ?_, fun t' m hh => ?_, fun t1 t2 m hne h1 h2 => ?_, fun m hm => ?_⟩
+    · rw [hn]
+      by_cases ht : t' = t
+      · subst ht; rw [ho] at hh; cases hh; exact hlt
+      · exact h.lt t' m (oth t' ht ▸ hh)
+    · rw [hiu]
+      by_cases ht : t' = t
+      · subst ht; rw [ho] at hh; cases hh; simp
+      · have hh' := oth t' ht ▸ hh
+        have hm : m ≠ n := fun e => nobody t' (e ▸ hh')
+        simp only [hm, ↓reduceIte]; exact h.used t' m hh'
+    · by_cases ht1 : t1 = t
+      · subst ht1
+        rw [ho] at h1; cases h1
+        have ht2 : t2 ≠ t1 := fun e => hne e.symm
+        exact nobody t2 (oth t2 ht2 ▸ h2)
+      · by_cases ht2 : t2 = t
+        · subst ht2
+          rw [ho] at h2; cases h2
+          exact nobody t1 (oth t1 ht1 ▸ h1)
+        · exact h.excl t1 t2 m hne (oth t1 ht1 ▸ h1) (oth t2 ht2 ▸ h2)
+    · rw [hiu]
+      have hm' : m ≠ n := by rw [hn] at hm; omega
+      simp only [hm', ↓reduceIte]; exact h.beyond m (hn ▸ hm)
+  | fresh hiu hn hob ho =>
+    have nobody : ∀ t', ownsT (st.th t') ≠ some st.sh.nNodes := fun t' hh => by
+      have := h.lt t' _ hh; omega
+    refine ⟨fun t' m hh => ?_, fun t' m hh => ?_, fun t1 t2 m hne h1 h2 => ?_, fun m hm => ?_⟩
+    · rw [hn]
+      by_cases ht : t' = t
+      · subst ht; rw [ho] at hh; cases hh; omega
+      · have := h.lt t' m (oth t' ht ▸ hh); omega
+    · rw [hiu]
+      by_cases ht : t' = t
+      · subst ht; rw [ho] at hh; cases hh; simp
+      · have hh' := oth t' ht ▸ hh
+        have hm : m ≠ st.sh.nNodes := fun e => nobody t' (e ▸ hh')
+        simp only [hm, ↓reduceIte]; exact h.used t' m hh'
+    · by_cases ht1 : t1 = t
+      · subst ht1
+        rw [ho] at h1; cases h1
+        have ht2 : t2 ≠ t1 := fun e => hne e.symm
+        exact nobody t2 (oth t2 ht2 ▸ h2)
+      · by_cases ht2 : t2 = t
+        · subst ht2
+          rw [ho] at h2; cases h2
+          exact nobody t1 (oth t1 ht1 ▸ h1)
+        · exact h.excl t1 t2 m hne (oth t1 ht1 ▸ h1) (oth t2 ht2 ▸ h2)
+    · rw [hiu]
+      have hm' : m ≠ st.sh.nNodes := by rw [hn] at hm; omega
+      simp only [hm', ↓reduceIte]; exact h.beyond m (by rw [hn] at hm; omega)
+  | cool n hob hiu hn ho =>
+    have hlt := h.lt t n hob
+    have others_not : ∀ t', t' ≠ t → ownsT (st.th t') ≠ some n := fun t' ht' =>
+      h.excl t t' n (fun e => ht' e.symm) hob
+    refine ⟨fun t' m hh => ?_, fun t' m hh => ?_, fun t1 t2 m hne h1 h2 => ?_, fun m hm => ?_⟩
+    · rw [hn]
+      by_cases ht : t' = t
+      · subst ht; rw [ho] at hh; cases hh
+      · exact h.lt t' m (oth t' ht ▸ hh)
+    · rw [hiu]
+      by_cases ht : t' = t
+      · subst ht; rw [ho] at hh; cases hh
+      · have hh' := oth t' ht ▸ hh
+        have hm : m ≠ n := fun e => others_not t' ht (e ▸ hh')
+        simp only [hm, ↓reduceIte]; exact h.used t' m hh'
+    · by_cases ht1 : t1 = t
+      · subst ht1; rw [ho] at h1; cases h1
+      · by_cases ht2 : t2 = t
+        · subst ht2; rw [ho] at h2; cases h2
+        · exact h.excl t1 t2 m hne (oth t1 ht1 ▸ h1) (oth t2 ht2 ▸ h2)
+    · rw [hiu]
+      have hm' : m ≠ n := by rw [hn] at hm; omega
+      simp only [hm', ↓reduceIte]; exact h.beyond m (hn ▸ hm)
+
+end M
+
+namespace M
+open Consts
+
+/-! ## Executions -/
+
+/-- initial state: any configuration and any programs; nothing allocated, no thread has a node -/
+def State.initial (cfg : Cfg) (progs : Nat → List (String × Op)) : State :=
+  { cfg := cfg, th := fun t => { prog := progs t } }
+
+def run (st : State) : List (Nat × Bool) → State
+  | [] => st
+  | (t, b) :: rest => run (microStep st t b).1 rest
+
+/-- every state of every execution: any number of threads, any programs, any schedule, any
+    spurious compare-exchange failures, any wrap modulus -/
+def Reachable (st : State) : Prop :=
+  ∃ cfg progs sched, st = run (State.initial cfg progs) sched
+
+theorem OwnInv.initial (cfg : Cfg) (progs : Nat → List (String × Op)) : OwnInv (State.initial cfg progs) := by
+  refine ⟨fun t n h => ?_, fun t n h => ?_, fun t t' n _ h => ?_, fun n _ => rfl⟩ <;>
+    simp [State.initial, ownsT] at h
+
+theorem OwnInv.run {st : State} (h : OwnInv st) : ∀ sched, OwnInv (run st sched) := by
+  intro sched
+  induction sched generalizing st with
+  | nil => exact h
+  | cons x rest ih => obtain ⟨t, b⟩ := x; exact ih (h.step t b)
+
+theorem OwnInv.reachable {st : State} (h : Reachable st) : OwnInv st := by
+  obtain ⟨cfg, progs, sched, rfl⟩ := h
+  exact (OwnInv.initial cfg progs).run sched
+
+/-! ## Where a thread is inside `start_cooldown` -/
+
+def LP.cd? : LP → Option CD
+  | .cool cd => some cd
+  | _ => none
+def PP.lp? : PP → Option LP
+  | .hload _ ld => some ld
+  | _ => none
+def CP.lp? : CP → Option LP
+  | .load ld => some ld
+  | .pay _ pp => pp.lp?
+  | _ => none
+def RP.lp? : RP → Option LP
+  | .load ld => some ld
+  | .cas _ _ cp => cp.lp?
+  | _ => none
+/-- the (innermost) load in progress of a thread -/
+def OpSt.lp? : OpSt → Option LP
+  | .load _ _ ld => some ld
+  | .loadFull _ _ ld => some ld
+  | .swapPay _ _ _ _ pp => pp.lp?
+  | .cinto _ _ _ pp => pp.lp?
+  | .dropc _ _ pp => pp.lp?
+  | .cas _ _ _ _ _ _ cp => cp.lp?
+  | .rcu _ _ _ rp => rp.lp?
+  | _ => none
+/-- the `start_cooldown` in progress of a thread: at thread exit, or at the generation wrap -/
+def OpSt.cd? : OpSt → Option CD
+  | .exitCool cd => some cd
+  | op => op.lp?.bind LP.cd?
+
+theorem ownsLP_of_cd (l : Locals) (ld : LP) (n : Nat) (h : ld.cd? = some (.swap n)) : ownsLP l ld = some n := by
+  cases ld <;> simp [LP.cd?] at h
+  subst h; rfl
+
+theorem ownsPP_of_lp (l : Locals) (pp : PP) (ld : LP) (h : pp.lp? = some ld) : ownsPP l pp = ownsLP l ld := by
+  cases pp <;> simp [PP.lp?] at h
+  subst h; rfl
+
+theorem ownsCP_of_lp (l : Locals) (cp : CP) (ld : LP) (h : cp.lp? = some ld) : ownsCP l cp = ownsLP l ld := by
+  cases cp <;> simp [CP.lp?] at h
+  · subst h; rfl
+  · exact ownsPP_of_lp l _ ld h
+
+theorem ownsRP_of_lp (l : Locals) (rp : RP) (ld : LP) (h : rp.lp? = some ld) : ownsRP l rp = ownsLP l ld := by
+  cases rp <;> simp [RP.lp?] at h
+  · subst h; rfl
+  · exact ownsCP_of_lp l _ ld h
+
+theorem ownsT_of_lp (th : Thread) (ld : LP) (h : th.op.lp? = some ld) : ownsT th = ownsLP th.loc ld := by
+  unfold ownsT
+  cases hop : th.op <;> simp [hop, OpSt.lp?] at h ⊢
+  · subst h; rfl
+  · subst h; rfl
+  · exact ownsPP_of_lp _ _ ld h
+  · exact ownsCP_of_lp _ _ ld h
+  · exact ownsRP_of_lp _ _ ld h
+  · exact ownsPP_of_lp _ _ ld h
+  · exact ownsPP_of_lp _ _ ld h
+
+theorem owns_of_cooldown (th : Thread) (n : Nat) (h : th.op.cd? = some (.swap n)) : ownsT th = some n := by
+  cases hop : th.op with
+  | exitCool cd =>
+    simp only [OpSt.cd?, hop] at h
+    cases h; simp [ownsT, hop, ownsCD]
+  | _ =>
+    simp only [OpSt.cd?, hop] at h
+    cases hl : th.op.lp? with
+    | none => rw [hop] at hl; simp [hl] at h
+    | some ld =>
+      rw [hop] at hl
+      simp only [hl, Option.bind] at h
+      rw [ownsT_of_lp th ld (hop ▸ hl)]
+      exact ownsLP_of_cd _ ld n h
 
 end M
